@@ -20,8 +20,8 @@
                      result (0 1) inside, (0 0) outside, (2 fn arg) a libm value is missing.
                      A Panic of the model step ends the simulation INSIDE the envelope: the differential
                      run shows it.
-   "nopanic.envq"  : the same decision with tighter bounds (allocation sizes and vector lengths <= 3000, size
-                     measure <= 20000): the filter the generators of the model-compared streams apply, so
+   "nopanic.envq"  : the same decision with tighter bounds (allocation sizes <= 3000, vector lengths <= 9000,
+                     size measure <= 60000): the filter the generators of the model-compared streams apply, so
                      that the list-based model stays fast.  Inside it implies inside the envelope.
    "nopanic.check" : (case observed) -> 1 the observed result is a normal return, 0 it is a panic / abort,
                      2 the case lies outside the envelope.  Two case shapes: a `run` case (6 elements)
@@ -94,7 +94,7 @@ Record bounds := { b_alloc : Z; b_size : Z; b_veclen : Z }.
 Definition env_bounds : bounds := {| b_alloc := ALLOC_BOUND; b_size := SIZE_BOUND; b_veclen := SIZE_BOUND |}.
 (* what the generated cases of the model-compared streams are held to: the list-based model is quadratic in the
    vector length for the element-wise vector instructions and in the points for some CODE instructions *)
-Definition quick_bounds : bounds := {| b_alloc := 3000; b_size := 20000; b_veclen := 3000 |}.
+Definition quick_bounds : bounds := {| b_alloc := 3000; b_size := 60000; b_veclen := 9000 |}.
 
 Definition max_len {A} (l : list (list A)) : Z := fold_right (fun x a => Z.max (zlen x) a) 0 l.
 Definition size_guard (b : bounds) (s : state) : bool :=
